@@ -1743,6 +1743,13 @@ func storeKeyOf(fc *FuncCtx, v ssa.Value, depth int) (string, string) {
 	fc, v = throughParams(fc, v)
 	switch x := v.(type) {
 	case *ssa.Call:
+		// prefix and item written into a local builder
+		if parts := builderParts(x); len(parts) > 0 {
+			if pf, isC := constStr(parts[0]); isC && len(parts) == 2 {
+				return pf + "%s", fc.AP(parts[1])
+			}
+			return "?", fc.AP(x)
+		}
 		if calleeIs(x, "fmt.Sprintf") {
 			f, _ := constStr(x.Call.Args[0])
 			if vs := varargValues(x); len(vs) == 1 {
